@@ -28,11 +28,11 @@ _tls = threading.local()
 WATCHDOG_S = 120
 
 
-def traced_files():
+def traced_files(with_parser=False):
     root = os.path.join(core.repo_dir(), 'beanquery')
     out = set()
     for d, _, files in os.walk(root):
-        if os.path.basename(d) in ('parser', 'tests', '__pycache__'):
+        if os.path.basename(d) in ('tests', '__pycache__') or (os.path.basename(d) == 'parser' and not with_parser):
             continue
         for f in files:
             if f.endswith('.py') and not f.endswith('_test.py'):
@@ -50,7 +50,7 @@ class ThreadSim:
         self.strategy = strategy or {'kind': 'random', 'p': 0.1}
         self.forced = None if forced is None else {int(s): int(t) for s, t in forced}
         self.trace_lines = trace_lines
-        self.files = traced_files() if trace_lines else ()
+        self.files = traced_files(with_parser=(trace_lines == 'parser')) if trace_lines else ()
         self.sems = [threading.Semaphore(0) for _ in range(nthreads)]
         self.main_sem = threading.Semaphore(0)
         self.finished = [False] * nthreads
